@@ -154,6 +154,8 @@ func (e *Engine) callFn(st *State, fr *Frame, fn *ssa.Function, bind []Value, ar
 				a = x
 			case *IfaceV:
 				a = e.materialize(st, x)
+			case *PtrV:
+				a = e.ptrTerm(st, x)
 			}
 			if a != nil {
 				key := "ghost$" + name
@@ -162,6 +164,11 @@ func (e *Engine) callFn(st *State, fr *Frame, fn *ssa.Function, bind []Value, ar
 					st.Assume(e.C.Eq(e.C.App(key+"_inv", a.Sort, t), a))
 					st.Assume(e.C.Not(e.C.Eq(t, e.i64(0))))
 					st.Assume(e.C.Eq(e.C.App("ghost_kind", smt.BV64, t), e.kindConst(key)))
+					// a ghost object exists exactly as long as the object it belongs to
+					st.Assume(e.C.Eq(e.C.Select(e.allocMap(st), t), e.C.Select(e.allocMap(st), a)))
+					if st.Pre != nil {
+						st.Assume(e.C.Eq(e.C.Select(e.allocMap(st.Pre), t), e.C.Select(e.allocMap(st.Pre), a)))
+					}
 				}
 			}
 		}
@@ -263,7 +270,7 @@ func (e *Engine) intrinsic(st *State, fr *Frame, name string, fn *ssa.Function, 
 		return &intrRes{nil}, true
 	case "gvcFresh":
 		// gvcFresh(x): x was allocated during the call (not allocated in the pre-state)
-		t := e.asTerm(st, args[0], nil)
+		t := e.chanTermOf(st, args[0])
 		pre := st.Pre
 		if pre == nil {
 			pre = st
@@ -323,6 +330,8 @@ func (e *Engine) ufApp(st *State, name string, results *types.Tuple, args []Valu
 			fl(x)
 		case *IfaceV:
 			ts = append(ts, e.materialize(st, x))
+		case *PtrV:
+			ts = append(ts, e.ptrTerm(st, x))
 		default:
 			e.fail("uninterpreted function %s: unsupported argument %T", name, a)
 		}
